@@ -60,7 +60,7 @@ def stage_numpy(d, k, shape, rate, bs, il, xl, z0, dz_ms, extra_arrays=0, seed=0
     th = {}
     fields = [segyio.TraceField.CDP_X, segyio.TraceField.CDP_Y, segyio.TraceField.offset]
     for j in range(extra_arrays):
-        th[fields[j]] = (np.arange(shape[0] * shape[1]).reshape(shape[0], shape[1]) * (j + 2) - 17).astype(np.int32)
+        th[fields[j]] = (np.arange(shape[0] * shape[1]).reshape(shape[0], shape[1]) * (j + 2) - 17).astype(('<i4', '>i4', '<i8', '>i2')[(k + j) % 4] if shape[0] * shape[1] < 5000 else np.int32)
     p = os.path.join(d, f'n{k}.sgz')
     writers.numpy_to_sgz(p, cube, writers.rate_arg(rate), bs, ilines=ilines, xlines=xlines, samples=samples, trace_headers=th)
     T = truth(3, shape, resolved_blockshape(rate, bs, 3), rate, shape[0] * shape[1], il, xl, z0, int(round(dz_ms * 1000)), source_format=20)
